@@ -424,6 +424,14 @@ impl Shim {
                             mark(&self.st, r.is_err());
                             r?;
                         }
+                        SetEnd::DropRowWriter if refused_before => {
+                            // after a refusal the writer may consider the row still open, and
+                            // dropping a RowWriter in the middle of a row is documented misuse (its
+                            // destructor cannot report anything): such a shim has to finish()
+                            let r = logged!(self, cb, "finish", None, rw.finish());
+                            mark(&self.st, r.is_err());
+                            r?;
+                        }
                         SetEnd::DropRowWriter => {
                             drop(rw);
                             self.log_call(cb, "drop_row_writer", true, None);
